@@ -4,7 +4,11 @@ import (
 	"encoding/json"
 	"fmt"
 	"os"
+	"runtime"
+	"sync"
+	"sync/atomic"
 	"testing"
+	"time"
 
 	"pgregory.net/rapid"
 )
@@ -50,4 +54,50 @@ func ReportReplay(t *testing.T, r *Replay, v *Violation) {
 		return
 	}
 	fmt.Printf("REPLAY-OK property=%s\n", r.Property)
+}
+
+// ---------------------------------------------------------------------------
+// Watchdog: a call into the code under test that never returns (an endless loop,
+// a mutex that is never released) would otherwise hold the process until the
+// test deadline. Harnesses bracket such calls with Busy()/Idle(); if one call
+// stays busy for the limit, the process prints where it is stuck and exits with
+// status 3 - the driver reports the run as inconclusive (exit 2), never as a
+// violation: none of the properties checked this way promises termination.
+// ---------------------------------------------------------------------------
+
+var wdBusy, wdSeq int64
+var wdOnce sync.Once
+
+func Busy() {
+	atomic.AddInt64(&wdSeq, 1)
+	atomic.AddInt64(&wdBusy, 1)
+}
+
+func Idle() { atomic.AddInt64(&wdBusy, -1) }
+
+func StartWatchdog(limit time.Duration) {
+	wdOnce.Do(func() {
+		go func() {
+			var last int64 = -1
+			var since time.Time
+			for {
+				time.Sleep(2 * time.Second)
+				if atomic.LoadInt64(&wdBusy) <= 0 {
+					last = -1
+					continue
+				}
+				seq := atomic.LoadInt64(&wdSeq)
+				if seq != last {
+					last, since = seq, time.Now()
+					continue
+				}
+				if time.Since(since) > limit {
+					buf := make([]byte, 1<<16)
+					n := runtime.Stack(buf, true)
+					fmt.Fprintf(os.Stderr, "WATCHDOG: a call into the code under test has not returned for %s; inconclusive\n%s\n", limit, buf[:n])
+					os.Exit(3)
+				}
+			}
+		}()
+	})
 }
